@@ -5,7 +5,12 @@ package main
 import (
 	"bytes"
 	"fmt"
+	"regexp"
+	"runtime"
 	"strconv"
+	"strings"
+	"sync"
+	"time"
 
 	"github.com/icon-project/goloop/common/db"
 )
@@ -24,7 +29,224 @@ func init() {
 	Register(&Prop{ID: "C19", Gen: c19Gen, New: func() Runner { return newC19Runner() }})
 }
 
+// c19ParkDB wraps the backend handed to NewLayerDB.  While `park` is on, every
+// GetBucket call is parked inside the backend call until the harness releases it
+// (a slow backend open).  Nothing here depends on timing: the harness advances only
+// when every goroutine it started is parked, finished, or blocked on a mutex inside
+// the layer DB (read off the runtime's goroutine dump).
+type c19ParkDB struct {
+	db.Database
+	mu     sync.Mutex
+	park   bool
+	parked map[int64]chan struct{} // goroutine id -> release channel
+}
+
+var c19GoidRe = regexp.MustCompile(`^goroutine (\d+) \[`)
+
+func c19Goid() int64 {
+	buf := make([]byte, 64)
+	buf = buf[:runtime.Stack(buf, false)]
+	m := c19GoidRe.FindSubmatch(buf)
+	id, _ := strconv.ParseInt(string(m[1]), 10, 64)
+	return id
+}
+
+func (p *c19ParkDB) GetBucket(id db.BucketID) (db.Bucket, error) {
+	p.mu.Lock()
+	var ch chan struct{}
+	if p.park {
+		ch = make(chan struct{})
+		p.parked[c19Goid()] = ch
+	}
+	p.mu.Unlock()
+	if ch != nil {
+		<-ch
+	}
+	return p.Database.GetBucket(id)
+}
+
+func (p *c19ParkDB) isParked(g int64) bool {
+	p.mu.Lock()
+	defer p.mu.Unlock()
+	_, ok := p.parked[g]
+	return ok
+}
+
+func (p *c19ParkDB) release(g int64) {
+	p.mu.Lock()
+	ch := p.parked[g]
+	delete(p.parked, g)
+	p.mu.Unlock()
+	close(ch)
+}
+
+// one concurrent call made by the harness
+type c19Task struct {
+	goid atomicInt64
+	done atomicBool
+	bk   db.Bucket
+	err  error
+}
+
+type atomicInt64 struct {
+	mu sync.Mutex
+	v  int64
+}
+
+func (a *atomicInt64) set(v int64) { a.mu.Lock(); a.v = v; a.mu.Unlock() }
+func (a *atomicInt64) get() int64  { a.mu.Lock(); defer a.mu.Unlock(); return a.v }
+
+type atomicBool struct {
+	mu sync.Mutex
+	v  bool
+}
+
+func (a *atomicBool) set(v bool) { a.mu.Lock(); a.v = v; a.mu.Unlock() }
+func (a *atomicBool) get() bool  { a.mu.Lock(); defer a.mu.Unlock(); return a.v }
+
+var c19DumpRe = regexp.MustCompile(`(?m)^goroutine (\d+) \[([^\]]+)\]:`)
+
+// c19BlockedInLayer: goroutine ids that are waiting for a mutex inside common/db layer code.
+var c19StackBuf = make([]byte, 1<<18)
+
+func c19BlockedInLayer() map[int64]bool {
+	buf := c19StackBuf[:runtime.Stack(c19StackBuf, true)]
+	res := map[int64]bool{}
+	for _, sec := range strings.Split(string(buf), "\n\n") {
+		m := c19DumpRe.FindStringSubmatch(sec)
+		if m == nil {
+			continue
+		}
+		st := m[2]
+		if (strings.HasPrefix(st, "sync.Mutex.Lock") || strings.HasPrefix(st, "semacquire") || strings.HasPrefix(st, "sync.RWMutex")) &&
+			strings.Contains(sec, "common/db.(*layerDB)") {
+			id, _ := strconv.ParseInt(m[1], 10, 64)
+			res[id] = true
+		}
+	}
+	return res
+}
+
+// quiesce waits until every task is parked in the backend, finished, or blocked on the
+// layer's lock. Returns false if that state is not reached (never expected).
+func (r *c19Runner) quiesce(tasks []*c19Task) bool {
+	deadline := time.Now().Add(20 * time.Second)
+	stable := 0 // consecutive polls in which the only unfinished, unparked tasks were blocked
+	for spin := 0; ; spin++ {
+		pending, nBlocked, nParked := false, 0, 0
+		var blocked map[int64]bool
+		for _, t := range tasks {
+			if t.done.get() {
+				continue
+			}
+			g := t.goid.get()
+			if g != 0 && r.pdb.isParked(g) {
+				nParked++
+				continue
+			}
+			if g != 0 {
+				if blocked == nil {
+					blocked = c19BlockedInLayer()
+				}
+				if blocked[g] {
+					nBlocked++
+					continue
+				}
+			}
+			pending = true
+			break
+		}
+		switch {
+		case pending:
+			stable = 0
+		case nBlocked == 0:
+			return true
+		case nParked == 0:
+			// waiting for a lock nobody parked holds: it is about to be granted
+			stable = 0
+		default:
+			// blocked behind a parked backend call: must be seen unchanged a few times in a row
+			stable++
+			if stable >= 4 {
+				return true
+			}
+		}
+		if time.Now().After(deadline) {
+			return false
+		}
+		if spin < 50 && stable == 0 {
+			runtime.Gosched()
+		} else {
+			time.Sleep(30 * time.Microsecond) // back-off only; no ordering depends on it
+		}
+	}
+}
+
+// runParked starts the calls one after the other (each new one only after the others are
+// quiescent), then releases parked backend calls following `order` until all have finished.
+func (r *c19Runner) runParked(calls []func(t *c19Task), order []int, o *Oracle) ([]*c19Task, bool) {
+	r.pdb.mu.Lock()
+	r.pdb.park = true
+	r.pdb.mu.Unlock()
+	defer func() {
+		r.pdb.mu.Lock()
+		r.pdb.park = false
+		r.pdb.mu.Unlock()
+	}()
+	var tasks []*c19Task
+	maxParked := 0
+	for _, c := range calls {
+		t := &c19Task{}
+		tasks = append(tasks, t)
+		c := c
+		go func() {
+			t.goid.set(c19Goid())
+			c(t)
+			t.done.set(true)
+		}()
+		if !r.quiesce(tasks) {
+			return tasks, false
+		}
+	}
+	for {
+		nParked, allDone := 0, true
+		for _, t := range tasks {
+			if !t.done.get() {
+				allDone = false
+				if r.pdb.isParked(t.goid.get()) {
+					nParked++
+				}
+			}
+		}
+		if nParked > maxParked {
+			maxParked = nParked
+		}
+		if allDone {
+			break
+		}
+		released := false
+		for _, i := range order {
+			if i < len(tasks) && !tasks[i].done.get() && r.pdb.isParked(tasks[i].goid.get()) {
+				r.pdb.release(tasks[i].goid.get())
+				released = true
+				break
+			}
+		}
+		if !released {
+			return tasks, false
+		}
+		if !r.quiesce(tasks) {
+			return tasks, false
+		}
+	}
+	if maxParked > 1 {
+		o.Count("concurrent-backend-opens-overlapped")
+	}
+	return tasks, true
+}
+
 type c19Runner struct {
+	pdb   *c19ParkDB
 	mdb   db.Database
 	ldb   db.LayerDB
 	slots map[int]db.Bucket
@@ -39,8 +261,10 @@ type c19Runner struct {
 
 func newC19Runner() *c19Runner {
 	m := db.NewMapDB()
+	p := &c19ParkDB{Database: m, parked: map[int64]chan struct{}{}}
 	return &c19Runner{
-		mdb: m, ldb: db.NewLayerDB(m),
+		pdb: p,
+		mdb: m, ldb: db.NewLayerDB(p),
 		slots: map[int]db.Bucket{}, sbk: map[int]string{},
 		refBase: map[string][]byte{}, refView: map[string][]byte{},
 		universe: map[string][2]string{}, slotGen: map[int]bool{},
@@ -158,6 +382,93 @@ func (r *c19Runner) Step(t []string, o *Oracle) string {
 		r.slotGen[n] = !r.flushed
 		o.Count("open")
 		return "ok"
+	case "copen":
+		// copen B ORDER S1 S2 [S3]: GetBucket(B) from 2-3 goroutines whose backend opens are
+		// parked and released in ORDER; linearised as open S1; open S2; open S3
+		if len(t) < 5 || len(t) > 6 {
+			return "bad-op"
+		}
+		b := unhx(t[1])
+		var order, slots []int
+		for _, c := range t[2] {
+			if c < '0' || c > '2' {
+				return "bad-op"
+			}
+			order = append(order, int(c-'0'))
+		}
+		for _, x := range t[3:] {
+			n, err := strconv.Atoi(x)
+			if err != nil || n < 0 {
+				return "bad-op"
+			}
+			slots = append(slots, n)
+		}
+		if len(order) != len(slots) {
+			return "bad-op"
+		}
+		var calls []func(*c19Task)
+		for range slots {
+			calls = append(calls, func(t *c19Task) { t.bk, t.err = r.ldb.GetBucket(db.BucketID(b)) })
+		}
+		tasks, ok := r.runParked(calls, order, o)
+		o.Check(ok, "harness-concurrency-stuck", "concurrent GetBucket did not reach a quiescent state")
+		if !ok {
+			return "stuck"
+		}
+		for i, n := range slots {
+			if tasks[i].err != nil {
+				return "err"
+			}
+			r.slots[n] = tasks[i].bk
+			r.sbk[n] = string(b)
+			r.slotGen[n] = !r.flushed
+		}
+		// all handles of one bucket id of an uncommitted layer are one overlay
+		if !r.flushed {
+			for i := 1; i < len(tasks); i++ {
+				o.Check(tasks[i].bk == tasks[0].bk, "concurrent-open-distinct-overlays", "GetBucket(%x) from %d goroutines returned different bucket objects for one uncommitted layer", b, len(tasks))
+			}
+		}
+		o.Count("concurrent-open")
+		return "ok"
+	case "copenflush":
+		// copenflush B S W: GetBucket(B) parked inside the backend; Flush(W) meanwhile; release.
+		// Linearised as open S B; flush W.
+		if len(t) != 4 || (t[3] != "0" && t[3] != "1") {
+			return "bad-op"
+		}
+		b := unhx(t[1])
+		n, err := strconv.Atoi(t[2])
+		if err != nil || n < 0 {
+			return "bad-op"
+		}
+		write := t[3] == "1"
+		wasFlushed := r.flushed
+		stuck := false
+		var opened *c19Task
+		res := r.doFlush(write, func() error {
+			var ferr error
+			calls := []func(*c19Task){
+				func(t *c19Task) { t.bk, t.err = r.ldb.GetBucket(db.BucketID(b)) },
+				func(*c19Task) { ferr = r.ldb.Flush(write) },
+			}
+			tasks, ok := r.runParked(calls, []int{0, 1}, o)
+			o.Check(ok, "harness-concurrency-stuck", "GetBucket overlapping Flush did not reach a quiescent state")
+			stuck = !ok
+			opened = tasks[0]
+			return ferr
+		}, o)
+		if stuck {
+			return "stuck"
+		}
+		if opened.err != nil {
+			return "err"
+		}
+		r.slots[n] = opened.bk
+		r.sbk[n] = string(b)
+		r.slotGen[n] = !wasFlushed
+		o.Count("open-overlapping-flush")
+		return res
 	case "set", "del", "get", "has":
 		if len(t) < 3 {
 			return "bad-op"
@@ -247,40 +558,7 @@ func (r *c19Runner) Step(t []string, o *Oracle) string {
 			return "bad-op"
 		}
 		write := t[1] == "1"
-		baseBefore := c19Copy(r.refBase)
-		viewBefore := map[string][]byte{}
-		for uk := range r.universe {
-			if v, ok := r.expectView(uk, nil); ok {
-				viewBefore[uk] = v
-			}
-		}
-		err := r.ldb.Flush(write)
-		if r.flushed {
-			// already committed: Flush(true) is a no-op, Flush(false) is refused
-			o.Check((err == nil) == write, "flush-after-commit-result", "Flush(%v) after commit returned %v", write, err)
-			r.checkBaseAgainst(o, baseBefore, "flush-after-commit-changed-base", "Flush after commit")
-			if write {
-				o.Count("flush-again-ok")
-			} else {
-				o.Count("flush-again-refused")
-			}
-		} else if write {
-			o.Check(err == nil, "commit-failed", "Flush(true) returned %v", err)
-			r.checkBaseAgainst(o, viewBefore, "commit-base-differs-from-view", "after Flush(true)")
-			r.refBase = viewBefore
-			r.refView = c19Copy(viewBefore)
-			r.flushed = true
-			o.Count("flush-commit")
-		} else {
-			o.Check(err == nil, "discard-failed", "Flush(false) returned %v", err)
-			r.checkBaseAgainst(o, baseBefore, "discard-changed-base", "after Flush(false)")
-			r.refView = map[string][]byte{}
-			o.Count("flush-discard")
-		}
-		if err != nil {
-			return "err"
-		}
-		return "ok"
+		return r.doFlush(write, func() error { return r.ldb.Flush(write) }, o)
 	case "cmp":
 		if len(t) != 3 {
 			return "bad-op"
@@ -310,6 +588,44 @@ func (r *c19Runner) Step(t []string, o *Oracle) string {
 		return fmt.Sprintf("b=%s,%v v=%s,%v", c19Show(bv), bh, c19Show(vv), vh)
 	}
 	return "bad-op"
+}
+
+// doFlush: bookkeeping and property checks around one Flush, however it is executed.
+func (r *c19Runner) doFlush(write bool, flush func() error, o *Oracle) string {
+	baseBefore := c19Copy(r.refBase)
+	viewBefore := map[string][]byte{}
+	for uk := range r.universe {
+		if v, ok := r.expectView(uk, nil); ok {
+			viewBefore[uk] = v
+		}
+	}
+	err := flush()
+	if r.flushed {
+		// already committed: Flush(true) is a no-op, Flush(false) is refused
+		o.Check((err == nil) == write, "flush-after-commit-result", "Flush(%v) after commit returned %v", write, err)
+		r.checkBaseAgainst(o, baseBefore, "flush-after-commit-changed-base", "Flush after commit")
+		if write {
+			o.Count("flush-again-ok")
+		} else {
+			o.Count("flush-again-refused")
+		}
+	} else if write {
+		o.Check(err == nil, "commit-failed", "Flush(true) returned %v", err)
+		r.checkBaseAgainst(o, viewBefore, "commit-base-differs-from-view", "after Flush(true)")
+		r.refBase = viewBefore
+		r.refView = c19Copy(viewBefore)
+		r.flushed = true
+		o.Count("flush-commit")
+	} else {
+		o.Check(err == nil, "discard-failed", "Flush(false) returned %v", err)
+		r.checkBaseAgainst(o, baseBefore, "discard-changed-base", "after Flush(false)")
+		r.refView = map[string][]byte{}
+		o.Count("flush-discard")
+	}
+	if err != nil {
+		return "err"
+	}
+	return "ok"
 }
 
 // expectView: the overlay of the pending writes over the underlying content.
@@ -424,9 +740,56 @@ func c19Gen(g *Gen) {
 				} else {
 					g.Emit("bdel %s %s", hx(rb()), hx(rk()))
 				}
-			case x < 94:
+			case x < 91:
 				g.Emit("flush %d", g.Intn(2))
 				cmpAll()
+			case x < 94:
+				if g.Intn(3) != 0 {
+					// the same bucket opened from 2-3 goroutines at once (often a bucket not opened yet)
+					b := rb()
+					if g.Intn(2) == 0 {
+						b = bucketPool[g.Intn(len(bucketPool))]
+						bks = append(bks, b)
+						nb++
+					}
+					n := 2 + g.Intn(2)
+					perm := g.R.Perm(n)
+					ord := ""
+					sl := g.R.Perm(5)[:n]
+					args := ""
+					for i := 0; i < n; i++ {
+						ord += strconv.Itoa(perm[i])
+						args += " " + strconv.Itoa(sl[i])
+						open[sl[i]] = true
+					}
+					g.Emit("copen %s %s%s", hx(b), ord, args)
+					k := rk()
+					g.Emit("set %d %s %s", sl[0], hx(k), hx(val()))
+					g.Emit("get %d %s", sl[1], hx(k))
+					g.Emit("del %d %s", sl[n-1], hx(k))
+					g.Emit("has %d %s", sl[0], hx(k))
+					g.Emit("set %d %s %s", sl[1], hx(rk()), hx(val()))
+					if g.Intn(2) == 0 {
+						g.Emit("flush 1")
+						g.Emit("set %d %s %s", sl[0], hx(rk()), hx(val()))
+						g.Emit("set %d %s %s", sl[n-1], hx(rk()), hx(val()))
+						cmpAll()
+					}
+				} else {
+					// a bucket being opened while the layer is flushed
+					b := rb()
+					if g.Intn(3) != 0 {
+						b = bucketPool[g.Intn(len(bucketPool))]
+						bks = append(bks, b)
+						nb++
+					}
+					sl := g.Intn(5)
+					open[sl] = true
+					g.Emit("copenflush %s %d %d", hx(b), sl, g.Pick(1, 1, 1, 0))
+					g.Emit("set %d %s %s", sl, hx(rk()), hx(val()))
+					g.Emit("del %d %s", sl, hx(rk()))
+					cmpAll()
+				}
 			default:
 				// delete-then-set / set-then-delete on one key, through two handles if possible
 				k := rk()
@@ -464,4 +827,12 @@ func c19Gen(g *Gen) {
 	g.Emit("flush 2")
 	g.Emit("nonsense")
 	g.Emit("get 0 01")
+	g.Emit("copen 53 01 1")
+	g.Emit("copen 53 0 1 2")
+	g.Emit("copen 53 03 1 2")
+	g.Emit("copenflush 53 1 2")
+	g.Emit("copen 53 10 3 4")
+	g.Emit("copenflush 54 2 1")
+	g.Emit("set 2 01 02")
+	g.Emit("cmp 54 01")
 }
